@@ -3,7 +3,8 @@
    list is mapped back to index-rectangles of the model's grid and must pass the verified
    checker is_cover; equality with the model's own greedy cover is NOT required. *)
 From FrameModel Require Import Num.QcTac Geometry.Rect Cases.Cmp
-  Die.Boundaries Die.Cells Die.Cover Die.DieModel.
+  Die.Boundaries Die.Cells Die.Cover Die.DieModel Die.DieInput.
+From Coq Require Import Ascii String.
 Open Scope Qc_scope.
 
 Fixpoint index_of (v : Qc) (l : list Qc) : option nat :=
@@ -66,6 +67,19 @@ Definition reason_eqb (a b : reason) : bool :=
   | _, _ => false
   end.
 
+(* the same rectangles in any order: the property promises that every input region is reported
+   unchanged with its tag, not the order of the lists *)
+Fixpoint remove_rect (x : Rect) (l : list Rect) : option (list Rect) :=
+  match l with
+  | [] => None
+  | y :: l' => if rect_eqb x y then Some l' else option_map (cons y) (remove_rect x l')
+  end.
+Fixpoint bag_eqb (a b : list Rect) : bool :=
+  match a with
+  | [] => match b with [] => true | _ => false end
+  | x :: a' => match remove_rect x b with Some b' => bag_eqb a' b' | None => false end
+  end.
+
 (* the implementation accepted and reported these four lists *)
 Definition agree_accept (eps aeps deps tin : Qc) (d : desc) (G S B Fx : list Rect) : bool :=
   match parse d with
@@ -79,8 +93,7 @@ Definition agree_accept (eps aeps deps tin : Qc) (d : desc) (G S B Fx : list Rec
       | Some gs =>
           match die_with_cover eps aeps deps tin d gs with
           | Accept g s b f =>
-              list_eqb rect_eqb g G && list_eqb rect_eqb s S && list_eqb rect_eqb b B &&
-              list_eqb rect_eqb f Fx &&
+              list_eqb rect_eqb g G && bag_eqb s S && bag_eqb b B && bag_eqb f Fx &&
               (if strict_b eps w h ins then tiles_b (s ++ g ++ b ++ f) (die_rect w h) else true)
           | Reject _ => false
           end
@@ -104,3 +117,54 @@ Definition model_grid (eps : Qc) (d : desc) : list Qc * list Qc * list (list boo
       let ys := die_ys eps w h ins in
       (xs, ys, cell_matrix xs ys ins)
   end.
+
+(* ---- input forms (Die/DieInput.v): the description arrives as a dict, a str ('<W>x<H>',
+   YAML text, file name) or an open stream; [files] / [loads] are the file the harness wrote and
+   the tree the generated text stands for ---- *)
+Definition nl : string := String (ascii_of_nat 10) EmptyString.
+Definition tab : string := String (ascii_of_nat 9) EmptyString.
+
+Definition agree_accept_in (files : list (string * string)) (loads : list (string * yload))
+    (eps aeps deps tin : Qc) (i : die_input) (fx G S B Fx : list Rect) : bool :=
+  match desc_of (files_of files) (loader_of loads) i fx with
+  | Some d => agree_accept eps aeps deps tin d G S B Fx
+  | None => false
+  end.
+
+Definition agree_reject_in (files : list (string * string)) (loads : list (string * yload))
+    (eps aeps deps tin : Qc) (i : die_input) (fx : list Rect) (cls : option reason) : bool :=
+  match die_in_cells (files_of files) (loader_of loads) eps aeps deps tin i fx with
+  | IRes (Reject why) => match cls with None => true | Some c => reason_eqb why c end
+  | INonFinite | IRaise => true     (* refused either way: the property does not say how *)
+  | _ => false
+  end.
+
+(* an exception other than an assertion escaped (OSError, the loader's errors) *)
+Definition agree_raise_in (files : list (string * string)) (loads : list (string * yload))
+    (eps aeps deps tin : Qc) (i : die_input) (fx : list Rect) : bool :=
+  match die_in_cells (files_of files) (loader_of loads) eps aeps deps tin i fx with
+  | IRaise | INonFinite | IRes (Reject _) => true     (* refused either way *)
+  | _ => false
+  end.
+
+(* yaml_parse_die.string_die called directly: cls 0 = None, 1 = assertion, 2 = infinite shape,
+   3 = Shape(w, h) (the observed floats within one rounding of the exact decimal value) *)
+Definition sd_agrees (s : string) (cls : nat) (w h : Qc) : bool :=
+  match string_die s, cls with
+  | SDNone, 0%nat => true
+  | SDNotPositive, 1%nat => true
+  | SDInfinite, 2%nat => true
+  | SDShape mw mh, 3%nat => qclose_rel 1 mw w && qclose_rel 1 mh h
+  | _, _ => false
+  end.
+
+(* accepted by the comparator = accepted by the model of the input form, with the very cover
+   the implementation reported *)
+Lemma agree_accept_in_resolved files loads eps aeps deps tin i fx G S B Fx :
+  agree_accept_in files loads eps aeps deps tin i fx G S B Fx = true ->
+  exists t, resolve (files_of files) (loader_of loads) i = RTree t /\
+            agree_accept eps aeps deps tin (mkDesc t fx) G S B Fx = true.
+Proof.
+  unfold agree_accept_in, desc_of. destruct (resolve _ _ i) as [t| | |]; try discriminate.
+  intro H. exists t. split; [reflexivity | exact H].
+Qed.
